@@ -10,7 +10,7 @@ PROPERTY = "C15"
 LEVEL = "exploration"
 RULE = ("configurations = serial-number model tags (quick: one per predicate-equivalence class over single-phase / 3-MPPT / "
         "4-MPPT / 2-battery / 745-platform; thorough: all 44 ET + 15 DT + 7 ES tags) x rated power {5, 20, 30 kW} x ALL subsets "
-        "of refusable blocks {battery, battery2, extended meter, extended-2 meter, MPPT, eco-mode-v2, peak shaving | DT meter} x "
+        "of refusable blocks {battery, battery2, extended meter, extended-2 meter, MPPT, eco-mode-v2, peak shaving | DT meter data, DT meter version} x "
         "battery present/absent (x ES firmware strings); per configuration read_device_info() and 3 x read_runtime_data() run "
         "through the real transport against a simulated inverter answering ILLEGAL DATA ADDRESS for the refused ranges, sensors() also "
         "queried right after read_device_info(), then further polls while the battery disappears / comes back; "
